@@ -34,7 +34,7 @@ impl FileStack {
             stack: Vec::new(),
         };
         result.add_libraries(libs, reports);
-        result.add_files(paths, reports);
+        result.add_files(paths, true, reports);
         result.user_inputs = result.stack.iter().cloned().collect::<HashSet<_>>();
 
         result
@@ -60,24 +60,24 @@ impl FileStack {
         }
     }
 
-    fn add_files(&mut self, paths: &[PathBuf], reports: &mut ReportCollection) {
+    // A path named on the command line (`named`) that is not a directory is always an
+    // input file; only the entries of a directory are filtered on the `.circom` extension.
+    fn add_files(&mut self, paths: &[PathBuf], named: bool, reports: &mut ReportCollection) {
         for path in paths {
             if path.is_dir() {
                 // Handle directories on a best effort basis only.
                 if let Ok(entries) = fs::read_dir(path) {
                     let paths: Vec<_> = entries.flatten().map(|x| x.path()).collect();
-                    self.add_files(&paths, reports);
+                    self.add_files(&paths, false, reports);
                 }
-            } else if let Some(extension) = path.extension() {
+            } else if named || path.extension().map_or(false, |extension| extension == "circom") {
                 // Add Circom files to file stack.
-                if extension == "circom" {
-                    match fs::canonicalize(path) {
-                        Ok(path) => self.stack.push(path),
-                        Err(_) => {
-                            reports.push(
-                                FileOsError { path: path.display().to_string() }.into_report(),
-                            );
-                        }
+                match fs::canonicalize(path) {
+                    Ok(path) => self.stack.push(path),
+                    Err(_) => {
+                        reports.push(
+                            FileOsError { path: path.display().to_string() }.into_report(),
+                        );
                     }
                 }
             }
